@@ -21,7 +21,7 @@ type B implements P { n: String }
 type C implements P { n: String }
 input In { f: Int = %(k)d }
 enum E { COMMON  X%(k)d }
-type Query { v: String  sc: Sc  dv: String @d  p: P  q(i: In, e: E): String }
+type Query { v: String  sc: Sc  dv: String @d  p: P  p2: P  q(i: In, e: E): String }
 type Subscription { ev: String }
 """
 
@@ -50,6 +50,14 @@ def reg_a(t, k, sn):
     async def rp(parent, args, ctx, info):
         return {"n": "n"}
 
+    # a per-field type resolver (the `type_resolver` argument of @Resolver) for a second abstract field
+    def field_tr(result, ctx, info, abstract_type):
+        return TYPES[(k % 3)]
+
+    @t.Resolver("Query.p2", type_resolver=field_tr, **kw)
+    async def rp2(parent, args, ctx, info):
+        return {"n": "n"}
+
     @t.Resolver("Query.q", **kw)
     async def rq(parent, args, ctx, info):
         return "%s/%s" % ((args.get("i") or {}).get("f"), args.get("e"))
@@ -57,6 +65,14 @@ def reg_a(t, k, sn):
     @t.TypeResolver("P", **kw)
     def tr(result, ctx, info, abstract_type):
         return TYPES[k - 1]
+
+
+class StatefulD:
+    def __init__(self, k):
+        self.k = k
+
+    async def on_field_execution(self, directive_args, next_resolver, parent, args, ctx, info):
+        return "%s|D%d" % (await next_resolver(parent, args, ctx, info), self.k)
 
 
 def reg_b(t, k, sn):
@@ -73,10 +89,8 @@ def reg_b(t, k, sn):
         def parse_literal(self, ast):
             return getattr(ast, "value", None)
 
-    @t.Directive("d", **kw)
-    class D:
-        async def on_field_execution(self, directive_args, next_resolver, parent, args, ctx, info):
-            return "%s|D%d" % (await next_resolver(parent, args, ctx, info), k)
+    # one directive class for every bundle, a separate stateful instance per schema name
+    t.Directive("d", **kw)(StatefulD(k))
 
     @t.Subscription("Subscription.ev", **kw)
     async def src(parent, args, ctx, info):
@@ -85,7 +99,7 @@ def reg_b(t, k, sn):
 
 def probe(eng, k):
     loop = main_loop()
-    r = loop.run(eng.execute("{ v sc dv p { __typename } }"))
+    r = loop.run(eng.execute("{ v sc dv p { __typename } p2 { __typename } }"))
     r2 = loop.run(eng.execute("query ($i: In, $e: E) { q(i: $i, e: $e) }", variables={"i": {}, "e": "X%d" % k}))
 
     async def first():
@@ -98,7 +112,7 @@ def probe(eng, k):
     d = r.get("data") or {}
     return {"resolvers": d.get("v"), "scalars": d.get("sc"), "directives": d.get("dv"),
             "type_resolvers": (d.get("p") or {}).get("__typename"), "subscriptions": (s.get("data") or {}).get("ev"),
-            "sdl": (r2.get("data") or {}).get("q"),
+            "sdl": (r2.get("data") or {}).get("q"), "field_type_resolver": (d.get("p2") or {}).get("__typename"),
             "errors": (r.get("errors") or []) + (s.get("errors") or []) + (r2.get("errors") or [])}
 
 
@@ -146,6 +160,9 @@ def judge(rec, answers, how):
             want = expected(kind, owners[0]) if len(owners) == 1 else None
             if got.get(kind) != want:
                 mm.append("%s: engine %d answers %r for %s, expected %r" % (how, i, got.get(kind), kind, want))
+            if kind == "resolvers" and len(owners) == 1 and got.get("field_type_resolver") != TYPES[owners[0] % 3]:
+                # the per-field type resolver is registered together with the resolvers of the bundle
+                mm.append("%s: engine %d resolves p2 as %r, expected %r (per-field type resolver of its own bundle)" % (how, i, got.get("field_type_resolver"), TYPES[owners[0] % 3]))
     return mm
 
 
